@@ -18,7 +18,7 @@ func init() {
 	Registry["C18"] = checkC18
 	Descriptions["C07"] = "C07-recover (every goroutine gldap starts that can run a handler or the decode slice registers, before any such call and exactly under !disablePanicRecovery, a deferred function that calls recover() directly), " +
 		"C07-accept (a failing Accept that is not the shutting-down case has a path back to the accept loop), C07-noexit (no os.Exit / log.Fatal / runtime.Goexit / undischarged explicit panic reachable from connection or request goroutines), " +
-		"C07-contained (connection/request goroutines never cancel the server context or close the listener), C07-nolock-io (no Server.mu / Mux.mu can be held at a call that reaches blocking socket I/O), C07-isolated (a connection's reader/writer pair is built in initConn from its own socket and never reset or replaced elsewhere: rules C13-pair / C05-owner), C07-accept-nonblocking (Run and its synchronous helpers perform no handshake / read / write on an accepted connection), C07-lockbalance (every Unlock/RUnlock, explicit or deferred, finds its mutex locked on every path: unlocking an unlocked mutex is a fatal error no recover() contains). Decides fencing and survival of the accept loop; does not decide that bystanders receive correct answers."
+		"C07-contained (connection/request goroutines never cancel the server context or close the listener), C07-nolock-io (no Server.mu / Mux.mu can be held at a call that reaches blocking socket I/O), C07-isolated (a connection's reader/writer pair is built in initConn from its own socket and never reset or replaced elsewhere: rules C13-pair / C05-owner), C07-accept-nonblocking (Run and its synchronous helpers perform no handshake / read / write on an accepted connection), C07-lockbalance (every Unlock/RUnlock, explicit or deferred, finds its mutex locked on every path: unlocking an unlocked mutex is a fatal error no recover() contains), C07-wg-nonneg (no connWg place is given back twice: a negative WaitGroup counter panics outside every recover; rule C12-nonneg). Decides fencing and survival of the accept loop; does not decide that bystanders receive correct answers."
 	Descriptions["C11"] = "Necessary structural condition for bounded Stop: C11-sites (blocking socket I/O sites on connection/request goroutines enumerated), " +
 		"C11-lockrelease (every Lock/RLock in gldap is released on every path to the function's exit), C11-accounting (every connWg.Add is matched by a Done on every path, rules C12-done-last / C12-add-vs-wait), C11-waker-lifetime (a watcher goroutine that can be told to stop is told so only after (*conn).close has waited for the handlers), C11-waker (some code that runs asynchronously to those goroutines closes or deadlines every connection's socket once shutdownCtx is cancelled, and it is started for every accepted connection before its first read), C11-waker-first (no call that reaches ber.ReadPacket, a bufio.Writer write/flush, a net.Conn/tls.Conn read/write or a TLS handshake lies on a path of the connection goroutine before the watcher start), C11-deadline-kept (every holder of a connection socket is followed; a Set*Deadline that may clear the deadline runs only on the shutdown path, in connection setup, synchronously in the read loop or as the closing half of an arm/clear pair), C11-noblock (the connection goroutine contains no bare channel operation, select without a shutdown case or foreign Wait), " +
 		"C11-stop-order (listener.Close and cancel precede connWg.Wait), C11-run-nil (shutdown exits of Run return nil), C11-nolock (connection goroutines never take Server.mu, which Stop holds across Wait). The time bound itself is not decided."
@@ -26,7 +26,7 @@ func init() {
 		"C17-errors (no error return of Run before or at the listen failure follows a store of true), C17-serves (no error return of Run between making Ready true and the first Accept), C17-accept-retry (a temporary Accept error never ends Run), C17-accept-unblocked (connection goroutines never take Server.mu, which the accept loop needs for every Accept: rule C11-nolock), C17-addr-narrowing (no number parsed from the address is narrowed to a smaller integer type without a range check), C17-timeouts (a deadline armed at connection setup from a configured timeout is guarded by that timeout being non-zero), C17-accept-nonblocking (the accept loop, helpers included, performs no handshake / read / write on an accepted connection: rule C07-accept-nonblocking), C17-getter (Ready returns the field under the lock). Kernel-level accept behaviour is not decided."
 	Descriptions["C18"] = "C18-wrap (when opts.withTLSConfig != nil the listener Accept is called on is tls.NewListener(plain, thatConfig), installed before the accept loop and never replaced), " +
 		"C18-noplain (newConn receives the Accept result itself; every stream handed to initConn traces back to Accept's result, conn.netConn or tls.Server of those; no code reads the underlying socket; read errors end the connection), " +
-		"C18-directory (testdirectory.GetTLSConfig with WithMTLS sets ClientAuth = RequireAndVerifyClientCert and ClientCAs = the pool of the CA created in the same call, and never weakens verification; Start passes that config to Run unless WithNoTLS). crypto/tls itself is trusted."
+		"C18-directory (testdirectory.GetTLSConfig with WithMTLS sets ClientAuth = RequireAndVerifyClientCert and ClientCAs = the pool of the CA created in the same call, and never weakens verification; Start passes that config to Run unless WithNoTLS), C18-own-connection (the accept loop performs no handshake / read on an accepted connection: rule C07-accept-nonblocking). crypto/tls itself is trusted."
 }
 
 // ------------------------------------------------------------------ C17
@@ -497,6 +497,12 @@ func checkC18(c *Ctx) {
 	if m == nil {
 		return
 	}
+	// ---- C18-own-connection: "such attempts end only their own connection": a TLS handshake (or any read of the
+	// accepted connection) performed by the accept loop itself lets one peer that connects and stays silent keep every
+	// later client from being served (rule C07-accept-nonblocking, imported)
+	if c.importRules(checkC07, func(o report.Obligation) bool { return o.Rule == "C07-accept-nonblocking" }, "C18-own-connection", " - a peer that never completes the handshake then holds up every other client, not only its own connection") > 0 {
+		R.Floor("C18-own-connection", 1)
+	}
 	S := c.opts()
 	run := m.run
 	// opts := getConfigOpts(opt...)
@@ -675,6 +681,34 @@ func checkC18(c *Ctx) {
 								continue
 							}
 							ic, isC := an.Strip(res[idx]).(*ssa.Call)
+							if phi, isPhi := an.Strip(res[idx]).(*ssa.Phi); isPhi && inner == nil {
+								// `if cfg != nil { l = tls.NewListener(l, cfg) }; return l, nil`: one return, the listener a phi of
+								// the plain listener and the TLS listener
+								var pc *ssa.Call
+								plain := true
+								for _, e := range phi.Edges {
+									ev := an.Strip(e)
+									if ec, isEC := ev.(*ssa.Call); isEC && an.CalleeIs(ec.Common(), "crypto/tls", "NewListener") && pc == nil {
+										pc = ec
+										continue
+									}
+									_, isParam := ev.(*ssa.Parameter)
+									isListen := false
+									if ex, isEx := ev.(*ssa.Extract); isEx {
+										if lc, isLC := ex.Tuple.(*ssa.Call); isLC && an.CalleeIs(lc.Common(), "net", "Listen") {
+											isListen = true
+										}
+									}
+									if !isParam && !isListen {
+										plain = false
+									}
+								}
+								if pc != nil && plain {
+									inner = pc
+									condInHelper = true
+									continue
+								}
+							}
 							if !isC || !an.CalleeIs(ic.Common(), "crypto/tls", "NewListener") || (inner != nil && inner != ic) {
 								// the helper decides itself whether to wrap: its other returns hand back the plain listener
 								// (its parameter, or the result of the Listen it made) or nothing at all on an error
@@ -979,23 +1013,19 @@ func checkC18(c *Ctx) {
 func (c *Ctx) checkReadErrorsEndConnection(rule string, m *serverModel) {
 	R := c.R
 	// err of readRequest
-	errIfs := ifsOn(m.serve, func(v ssa.Value) bool {
-		x, _, ok := an.NilCheck(v)
-		if !ok {
-			return false
+	var errIfs []errNilIf
+	for _, r := range *m.readReq.Referrers() {
+		if ex, isEx := r.(*ssa.Extract); isEx && ex.Index == 1 {
+			errIfs = append(errIfs, errNilIfs(m.serve, ex)...)
 		}
-		ex, ok := an.Strip(x).(*ssa.Extract)
-		return ok && ex.Tuple == ssa.Value(m.readReq) && ex.Index == 1
-	})
+	}
 	if len(errIfs) != 1 {
 		R.Unknown(rule, "(*conn).serveRequests: read error ends the connection", c.pos(m.readReq), sprintf("expected one err != nil test on readRequest's error, found %d", len(errIfs)))
 		return
 	}
 	g := errIfs[0]
-	v, _ := an.Not(g.If.Cond)
-	_, trueMeansNil, _ := an.NilCheck(v)
-	errSucc := succOn(g.If, trueMeansNil == g.Neg)
-	okSucc := succOn(g.If, trueMeansNil != g.Neg)
+	errSucc := g.ErrSucc
+	okSucc := g.NilSucc
 	bad := or(inBlock(m.loopHead), isInstr(m.readReq), callPred(isMuxServe), callPred(isHandlerInvoke), func(in ssa.Instruction) bool { _, ok := in.(*ssa.Go); return ok })
 	if w := an.Search(an.Point{B: errSucc, I: 0}, bad, nil); w != nil {
 		R.Fail(rule, "(*conn).serveRequests: read error ends the connection", c.pos(g.If), "after a failed read/decode (e.g. failed TLS handshake, plaintext on a TLS port) the loop can continue or dispatch: "+c.trail(w))
@@ -1898,6 +1928,9 @@ func checkC07(c *Ctx) {
 	}
 	R.Trivial("C07-contained", "connection/request slice has no server-level effect", c.P.Pos(m.connFn.Pos()), "only connWg.Done, logging and onCloseHandler touch the Server")
 
+	// ---- C07-wg-nonneg: "the server process keeps running": a WaitGroup counter that goes negative panics, in the accept
+	// loop or in a teardown after its recover(), where nothing contains it (rule C12-nonneg, imported)
+	c.importRules(checkC12, func(o report.Obligation) bool { return o.Rule == "C12-nonneg" }, "C07-wg-nonneg", " - that panic is raised outside every recover() and takes the whole process down")
 	// ---- C07-isolated: "affects only that connection ... every other connection keeps receiving correct responses": the
 	// buffered reader/writer pair of a connection belongs to that connection alone for as long as anything can still
 	// use it - it is built in initConn from the connection's own socket and never re-pointed, reset or replaced
@@ -2601,6 +2634,56 @@ func checkC11(c *Ctx) {
 			}
 		}
 		return n
+	}
+	// a watcher registered with context.AfterFunc(shutdownCtx, f): the stop function it returns is what disarms it
+	seenAF := map[ssa.Instruction]bool{}
+	for _, w := range used {
+		af, isCallI := w.start.(*ssa.Call)
+		if !isCallI || !an.CalleeIs(af.Common(), "context", "AfterFunc") || seenAF[af] {
+			continue
+		}
+		seenAF[af] = true
+		key := fname(w.fn) + ": stays armed until the handlers have ended (stop function of context.AfterFunc)"
+		n := 0
+		for _, f := range shipped {
+			for _, ci := range an.Calls(f) {
+				cc := ci.Common()
+				if cc.IsInvoke() || cc.StaticCallee() != nil || an.StripX(cc.Value) != ssa.Value(af) {
+					continue
+				}
+				n++
+				okLate := false
+				switch x := ci.(type) {
+				case *ssa.Call:
+					okLate = f == m.teardown && an.InstrDominates(m.closeCall, x)
+				case *ssa.Defer:
+					// defers run last-in first-out: registered before the teardown's defer = runs after it
+					okLate = f == m.connFn && m.tdDefer != nil && an.InstrDominates(x, m.tdDefer)
+				}
+				R.Check(okLate, "C11-waker-lifetime", key, c.pos(ci), "the watcher is disarmed only after (*conn).close, which waits for the handlers, has returned",
+					"the shutdown watcher is disarmed before (*conn).close has waited for the connection's handlers (deferred calls run last-in first-out): if the read loop ends (Unbind, EOF) while a handler is blocked writing to a client that does not read, a later Stop() no longer arms the write deadline and never returns")
+			}
+		}
+		// the stop function handed on as a value (stored, passed to a helper): who calls it, and when, is not followed
+		for _, ref := range *af.Referrers() {
+			switch x := ref.(type) {
+			case ssa.CallInstruction:
+				if x.Common().Value == ssa.Value(af) {
+					continue
+				}
+				n++
+				R.Unknown("C11-waker-lifetime", key+": passed on", c.pos(x), "the stop function is handed to another function: when it is called is not followed")
+			case *ssa.MakeClosure, *ssa.DebugRef:
+			case *ssa.Store:
+				if _, isAlloc := an.Strip(x.Addr).(*ssa.Alloc); !isAlloc {
+					n++
+					R.Unknown("C11-waker-lifetime", key+": stored", c.pos(x), "the stop function is stored: when it is called is not followed")
+				}
+			}
+		}
+		if n == 0 {
+			R.OK("C11-waker-lifetime", key, c.pos(af), "the stop function is never called: the watcher lives until shutdown")
+		}
 	}
 	seenWaker := map[*ssa.Function]bool{}
 	for _, w := range used {
